@@ -425,6 +425,7 @@ def inlined(fb, body, keep=(), also=None, depth=4, crate=None, closures=True, on
             added = _inline_combinator(fb, body, blocks, locals_, raw['vars'], i, t, callee(t))
             if added:
                 work.extend((j, d + 1, chain) for j in added)
+                raw.setdefault('inlined_closures', []).append(blocks[i]['term'].get('inl'))
             continue
         if not name or not name.startswith(crate + '::') and not name.startswith('<' + crate + '::'):
             continue
